@@ -6,6 +6,8 @@ the `or_else` chain exact-lookup -> suffix-search, and the 5-line predicate `is_
 The fold closure and the `From` impl are *simulated* on the three abstract states, so the rule is about the transition table,
 not about the way it is written (if/else nesting, arm order, binding names are free).
 """
+import re
+
 from . import facts
 from .core import Src, Anchor, find, walk, show, path_of, is_call_to, pat_binds
 
@@ -645,53 +647,66 @@ def h7(rep, src):
     rep.rule(
         "H7",
         "try_from_table_factor registers the columns of a FROM item under <qualifier> ++ [column] where the qualifier is the alias when there is one and otherwise the WHOLE table path "
-        "(Table: the ObjectName as written; Derived: the sub-query's name), built with copying combinators only (no last()/skip/index)",
+        "(Table: the ObjectName as written; Derived: the sub-query's name), built with copying combinators only (no last()/skip/index); read on the canonical body (locals and private helpers inlined)",
         floor=4,
         necessary="a truncated qualifier gives `prod.events` and `staging.events` the same keys: the right table silently replaces the left one in the joined hierarchy and `prod.events.v` is bound to the other table",
     )
-    f = src.one_fn(name="try_from_table_factor", file="sql/relation.rs")
+    from .canon import canon_view
+
+    f = canon_view(src.one_fn(name="try_from_table_factor", file="sql/relation.rs"), src, keep={"last", "lower_case_unquoted_ident"}, keep_lets={"relation"})
     ms = [m for m in find(f.body, "match") if "table_factor" in show(m["e"], 0)]
     if len(ms) != 1:
         rep.undecidable("H7", "try_from_table_factor", "expected one match on table_factor", f.where())
         return
+
+    def strip_copy(e):
+        """peel copying combinators / borrows: the expression whose elements are the path components"""
+        meths = []
+        while True:
+            if e["k"] == "ref":
+                e = e["e"]
+            elif e["k"] == "mcall" and e["m"] in QUAL_OK and e["m"] != "chain":
+                meths.append(e["m"])
+                e = e["recv"]
+            else:
+                return e, meths
+
     for a in ms[0]["arms"]:
         pt = show(a["pat"], 0)
         kind = "Table" if "TableFactor::Table" in pt else ("Derived" if "TableFactor::Derived" in pt else None)
+        where = "src/sql/relation.rs:%d" % a["l"]
         if kind is None:
             if any(is_call_to(c, "RelationWithColumns::new") for c in find(a["body"], "call")):
-                rep.undecidable("H7", "try_from_table_factor@other", "a further arm builds column paths: %s" % show(a["pat"], 60), "src/sql/relation.rs:%d" % a["l"])
+                rep.undecidable("H7", "try_from_table_factor@other", "a further arm builds column paths: %s" % show(a["pat"], 60), where)
             continue
-        where = "src/sql/relation.rs:%d" % a["l"]
         key = "try_from_table_factor@" + kind
-        lets = [l for l in find(a["body"], "let") if l["pat"]["k"] == "ident" and l["pat"]["name"] == "name"]
-        if len(lets) != 1:
-            rep.undecidable("H7", key + "@qualifier", "expected one `let name = ..` (the qualifier)", where)
+        # the (path, identifier) pairs collected into the column hierarchy: tuples whose first component chains a qualifier with once(<column>)
+        pairs = []
+        for t in find(a["body"], "tuple"):
+            if len(t["elems"]) != 2:
+                continue
+            ch = [m for m in walk(t["elems"][0]) if m["k"] == "mcall" and m["m"] == "chain"]
+            if ch and any(is_call_to(c, "once") for c in find(ch[0]["args"][0], "call")):
+                pairs.append((t, ch[0]))
+        if len(pairs) != 1:
+            rep.undecidable("H7", key + "@key", "cannot find the (qualifier ++ [column], identifier) pair of the column hierarchy (%d candidates)" % len(pairs), where)
             continue
-        q = lets[0]["init"]
+        t, ch = pairs[0]
+        outer, m_out = strip_copy(t["elems"][0])
+        q, m_in = strip_copy(ch["recv"])
+        bad = [m for m in m_out + m_in if m not in QUAL_OK]
+        rep.instance("H7", key + "@key", {"path": show(t["elems"][0], 140)})
+        if outer is not ch or bad:
+            rep.violation("H7", key + "@key", "the column path is not <qualifier> ++ [column] built with copying combinators only: %s" % show(t["elems"][0], 120), where)
         ok_q = q["k"] == "mcall" and q["m"] == "unwrap_or" and len(q["args"]) == 1
         dflt = show(q["args"][0], 0).replace(" ", "") if ok_q else None
-        want = ("name.cloned()", "name.clone()") if kind == "Table" else ("relation.name().cloned()", "relation.name().into()", "relation.name().to_string().into()")
         alias_part = show(q["recv"], 0).replace(" ", "") if ok_q else None
+        want = ("name.cloned()", "name.clone()") if kind == "Table" else ("relation.name().cloned()", "relation.name().into()", "relation.name().to_string().into()")
         rep.instance("H7", key + "@qualifier", {"alias": alias_part, "default": dflt})
         if not ok_q or dflt not in want:
             rep.violation("H7", key + "@qualifier", "the qualifier of an un-aliased %s item is `%s`, not the whole name (%s)" % (kind, dflt or show(q, 80), want[0]), where)
-        if ok_q and not (alias_part.startswith("alias") and "name" in alias_part):
+        if ok_q and not (alias_part.startswith("alias") and re.search(r"\.name\b", alias_part)):
             rep.violation("H7", key + "@alias", "the aliased qualifier is not the alias name: %s" % alias_part, where)
-        # the key of each column
-        cols = [l for l in find(a["body"], "let") if l["pat"]["k"] == "ident" and l["pat"]["name"] == "columns"]
-        tuples = [t for l in cols for t in find(l["init"], "tuple") if len(t["elems"]) == 2 and "name" in show(t["elems"][0], 0)]
-        if len(tuples) != 1:
-            rep.undecidable("H7", key + "@key", "cannot find the (path, identifier) pair of `columns`", where)
-            continue
-        k0 = tuples[0]["elems"][0]
-        meths, r = [], k0
-        while r["k"] == "mcall":
-            meths.append(r["m"])
-            r = r["recv"]
-        bad = [m for m in meths if m not in QUAL_OK]
-        rep.instance("H7", key + "@key", {"path": show(k0, 120), "root": show(r, 20)})
-        if bad or path_of(r) != "name" or "chain" not in meths:
-            rep.violation("H7", key + "@key", "the column path is not name ++ [column] (combinators %s on %s)" % (bad, show(r, 30)), where)
 
 
 def h8(rep, src):
